@@ -44,7 +44,16 @@ def init(prog, rep, spec, tag):
     rep.ob(P, "ethertype-value" + tag, prog.const_value("ETHERCAT_ETHERTYPE") == spec["ethertype"], "ETHERCAT_ETHERTYPE == 0x88A4", how="table")
     fills = [c for c in b.calls() if (c.decl_s or "").endswith("::fill")]
     ok = len(fills) == 1 and q.const_int(fills[0].args[1]) == 0 and has_root(pr.of_operand(fills[0].args[0]), "call", "EthernetFrame::payload_mut") and all(b.every_path_passes(0, rb, {fills[0].bb}) for rb in rets)
-    rep.ob(P, "zero-fill" + tag, ok, "the whole Ethernet payload is zero-filled (padding, working counters and IRQ fields start as zero)", loc=b.span)
+    if ok:
+        # ... and it is the *whole* payload: nothing narrows the slice between payload_mut() and fill()
+        from ..core import TRANSPARENT
+
+        narrow = {"Index::index", "IndexMut::index_mut", "slice::get", "slice::get_mut", "Option::unwrap", "Option::expect", "Option::unwrap_or", "Option::map", "Option::and_then", "Option::unwrap_unchecked"}
+        strict = Prov(b, transparent=TRANSPARENT - narrow)
+        rr = strict.of_operand(fills[0].args[0])
+        via = sorted({x[1] for x in rr if x[0] == "call" and x[1] not in ("EthernetFrame::payload_mut", "FrameBox::ethernet_frame_mut")})
+        ok = not via
+    rep.ob(P, "zero-fill" + tag, ok, "the whole Ethernet payload is zero-filled on every path, not a sub-range of it (padding, working counters and IRQ fields start as zero whatever the slot held before)", loc=b.span)
     # payload_mut really is everything after the 14-byte header
     rep.ob(P, "header-len" + tag, prog.const_value("ETHERNET_HEADER_LEN") == spec["ethernet_header_len"], "ETHERNET_HEADER_LEN == 14", how="table")
     # claim_created always initialises
@@ -198,6 +207,56 @@ def _push_facts(prog, fn):
     return f
 
 
+def _lb_packed_len(prog, b, op, depth=0):
+    """Is the integer operand bounded from below by a `packed_len()` call?  x = packed_len(); max(a, b) with either
+    side bounded; map_or(default, f) with both the default and the closure's result bounded; casts and moves."""
+    if depth > 10:
+        return False
+    pl = op_place(op)
+    if pl is None or pl["p"]:
+        return False
+    ds = b.defs().get(pl["l"], [])
+    if not ds:
+        return False
+    for bi, si, kind, payload in ds:
+        if kind == "assign":
+            rv = payload["rv"]
+            if rv["k"] in ("use", "cast") and _lb_packed_len(prog, b, rv["a"][0], depth + 1):
+                continue
+            return False
+        if kind != "call":
+            return False
+        c = payload
+        name = c.decl_s or ""
+        if name.endswith("::packed_len"):
+            continue
+        if name in ("Ord::max", "cmp::max") and (_lb_packed_len(prog, b, c.args[0], depth + 1) or _lb_packed_len(prog, b, c.args[1], depth + 1)):
+            continue
+        if name in ("<usize as From>::from", "From::from", "Into::into") and _lb_packed_len(prog, b, c.args[0], depth + 1):
+            continue
+        if name == "Option::map_or" and _lb_packed_len(prog, b, c.args[1], depth + 1) and _closure_lb(prog, b, c.args[2], depth + 1):
+            continue
+        if name == "Option::map_or_else" and _closure_lb(prog, b, c.args[1], depth + 1) and _closure_lb(prog, b, c.args[2], depth + 1):
+            continue
+        return False
+    return True
+
+
+def _closure_lb(prog, b, op, depth):
+    pl = op_place(op)
+    if pl is None or pl["p"]:
+        return False
+    for bi, si, kind, payload in b.defs().get(pl["l"], []):
+        if kind == "assign" and payload["rv"]["k"] == "agg" and payload["rv"].get("ak") == "closure":
+            from ..core import norm
+
+            cb = prog.by_path.get(norm(payload["rv"]["def"]))
+            if cb is None:
+                return False
+            return _lb_packed_len(prog, cb, {"copy": {"l": 0, "p": []}}, depth + 1)
+    return False
+
+
 def pushes(prog, rep, tag):
     P = "C04.push"
     facts = {}
@@ -243,6 +302,26 @@ def pushes(prog, rep, tag):
                 d["header"] = False
             ok = all(d.values())
         rep.ob(P, "%s:bounded-write%s" % (fn, tag), ok, "%s writes only into pdu_buf_mut().get_mut(used..used+alloc) whose failure is TooLong; %s" % (fn, d), loc=b.span)
+    # the length written into the datagram header and used for the allocation covers the data that is written:
+    # push_pdu writes all of `data` (packed_len() bytes) after the header, so its length value must be bounded
+    # from below by data.packed_len() (an explicit length may only enlarge the datagram: "zero padded to an explicit
+    # length"); push_pdu_slice_rest writes exactly the sub-slice whose length it announces
+    b = facts["CreatedFrame::push_pdu"]["body"]
+    fl = b.calls_to("PduFlags::new")
+    ok = len(fl) == 1 and _lb_packed_len(prog, b, fl[0].args[0])
+    rep.ob(P, "CreatedFrame::push_pdu:length-covers-data" + tag, ok, "the datagram length announced by push_pdu is data.packed_len(), or the maximum of it and the explicit length: never less than the bytes written", loc=b.span, how="dataflow")
+    b = facts["CreatedFrame::push_pdu_slice_rest"]["body"]
+    fl = b.calls_to("PduFlags::new")
+    ok = len(fl) == 1
+    if ok:
+        pr = Prov(b)
+        ln = pr.of_operand(fl[0].args[0])
+        mins = [c for c in b.calls() if (c.decl_s or "").endswith("::min")]
+        # the written slice is bytes[0..len] with the same len
+        idx = [c for c in b.calls() if c.is_("Index::index") and any(x[0] == "agg" and x[1] == "Range" for x in pr.of_operand(c.args[1]))]
+        ok = len(mins) >= 1 and any(x[0] == "call" and x[1].endswith("::min") for x in ln) and bool(idx) and any(any(x[0] == "call" and x[1].endswith("::min") for x in pr.of_operand(c.args[1])) for c in idx)
+    rep.ob(P, "CreatedFrame::push_pdu_slice_rest:length-is-slice-written" + tag, ok, "push_pdu_slice_rest announces min(space, data length) and writes exactly bytes[0..that]", loc=b.span, how="dataflow")
+
     # siblings agree on the sequence of effects
     def seq(f):
         b = f["body"]
